@@ -66,7 +66,7 @@ T2lKeep(k) == /\ (k.sel = <<"Common Name">>) => k.tl > OldLists
               /\ (Quick /\ k.tl > OldLists) => (k.sel # <<>> /\ k.sel # <<"sex">> /\ k.idx = <<>> /\ k.sep = <<>> /\ k.empty = <<>> /\ ~k.fn /\ ~k.seqfn)
               /\ (k.tl > OldLists) => (k.sep = <<>> /\ k.empty = <<>> /\ (k.idx = <<>> \/ k.idx \in {<<-1>>, <<0>>, <<2>>}))
               /\ k.seqfn => (k.sep = <<>> /\ ~k.fn /\ k.map = "a" /\ k.vo = "a")
-              /\ (Quick /\ k.sep # <<>>) => (k.idx = <<>> /\ k.sel = <<>>)        \* the join separator matters for joins only
+              /\ (Quick /\ k.sep # <<>>) => (k.idx = <<>> /\ (k.sel = <<>> \/ k.tl = 3))   \* the join separator matters for joins only
               /\ (Quick /\ k.empty # <<>>) => (k.idx = <<>> /\ ~k.fn)
 LoOf(k) == [seqfn |-> k.seqfn, sel |-> k.sel, idx |-> k.idx, sep |-> k.sep, empty |-> k.empty, kvsep |-> <<>>,
             fn |-> k.fn, map |-> k.map, vo |-> k.vo]
@@ -110,15 +110,21 @@ ImpOf(k) == ImpCommon(k) @@ [els |->
 
 (* ------------------------------------------------------------------ exp *)
 ExpSrs == {2, 3, 4, 8}
-ExpSingles == {[kind |-> "exp", via |-> v, sr |-> sr, cast |-> ca, ign |-> FALSE, rtg |-> r, vo |-> vo, ix |-> <<g>>] :
-               v \in {"segment", "bbox"}, sr \in ExpSrs, ca \in BOOLEAN, r \in BOOLEAN, vo \in BOOLEAN, g \in 1..Len(Cat)}
+\* label options through the exporters: value_only omitted / True / False x select_by_key omitted / "ev" (the events' key)
+ExpSingles == {[kind |-> "exp", via |-> v, sr |-> sr, cast |-> ca, ign |-> FALSE, rtg |-> r, vo |-> vo, lsel |-> ls, ix |-> <<g>>] :
+               v \in {"segment", "bbox"}, sr \in ExpSrs, ca \in BOOLEAN, r \in BOOLEAN, vo \in {"a", "t", "f"}, ls \in Opt({"ev"}),
+               g \in 1..Len(Cat)}
 ListPool == IF Quick THEN <<4, 12, 8, NONE>> ELSE <<4, 12, 8, NONE, 15, 2, 14, 21>>
-ExpLists == {[kind |-> "exp", via |-> v, sr |-> 4, cast |-> ca, ign |-> ig, rtg |-> r, vo |-> FALSE, ix |-> l] :
-             v \in {"sequence", "annot_seq", "annot_bbox"}, ca \in BOOLEAN, ig \in BOOLEAN, r \in BOOLEAN,
+ExpLists == {[kind |-> "exp", via |-> v, sr |-> 4, cast |-> ca, ign |-> ig, rtg |-> r, vo |-> vo, lsel |-> ls, ix |-> l] :
+             v \in {"sequence", "annot_seq", "annot_bbox"}, ca \in BOOLEAN, ig \in BOOLEAN, r \in BOOLEAN, vo \in {"a", "t", "f"}, ls \in Opt({"ev"}),
              l \in {[j \in DOMAIN m |-> ListPool[m[j]]] : m \in Lists(Len(ListPool))}}
-ExpKeep(k) == (~IsBoxVia(k) => k.rtg) /\ (k.via = "segment" /\ k.sr # 4 => ~k.vo)     \* rtg exists for boxes only
+ExpLabelDefault(k) == k.vo = "a" /\ k.lsel = <<>>
+ExpKeep(k) == /\ (~IsBoxVia(k) => k.rtg)                                              \* rtg exists for boxes only
+              /\ (k.sr # 4 => ExpLabelDefault(k))                                     \* label options vary at one rate
+              /\ (Len(k.ix) > 1 /\ ~ExpLabelDefault(k)) => (k.cast /\ k.ign /\ k.rtg /\ (Quick => (k.lsel # <<>> \/ k.vo = "t")))
+              /\ (Quick /\ Len(k.ix) = 1 /\ ~ExpLabelDefault(k) /\ k.lsel = <<>>) => k.cast
 ExpOf(k) == [kind |-> "exp", via |-> k.via, sr |-> k.sr, tden |-> ETDEN, fden |-> FDEN, cast |-> k.cast, ign |-> k.ign,
-             rtg |-> k.rtg, vo |-> k.vo, evs |-> [j \in DOMAIN k.ix |-> Cat[k.ix[j]]]]
+             rtg |-> k.rtg, vo |-> k.vo, lsel |-> k.lsel, evs |-> [j \in DOMAIN k.ix |-> Cat[k.ix[j]]]]
 
 (* ------------------------------------------------------------------- rt *)
 RtBoxPool == <<<<8, 24, 0, 2>>, <<0, 64, 2, 16>>, <<24, 40, 1, 3>>>>        \* high <= Nyquist (sr = 16: 16 ticks)
@@ -133,7 +139,7 @@ RtKeep(k) == /\ (k.via \in {"segment", "bbox"} => Len(k.ix) = 1)
              /\ (Quick /\ Len(k.ix) > 1) => (k.emp <=> k.ikey # <<>>)
              /\ (IsBoxVia(k) => k.mode = "sec" /\ k.sr = 16)
              /\ (k.sel # <<>>) => (k.ikey = <<>> /\ (Quick => k.sr = 16))
-RtBase(k) == [via |-> k.via, sr |-> k.sr, tden |-> TDEN, fden |-> FDEN, cast |-> FALSE, ign |-> FALSE, rtg |-> TRUE, vo |-> TRUE]
+RtBase(k) == [via |-> k.via, sr |-> k.sr, tden |-> TDEN, fden |-> FDEN, cast |-> FALSE, ign |-> FALSE, rtg |-> TRUE, vo |-> "t", lsel |-> <<>>]
 RtOf(k) ==
     [kind |-> "rt", te |-> <<1, 1>>, exact |-> TRUE, ikey |-> k.ikey, sel |-> k.sel] @@ RtBase(k) @@
     [els |-> [j \in 1..Len(k.ix) |->
@@ -291,7 +297,7 @@ LawFallbackLast == (L2t /\ ~Stronger(K.to)) =>
 \* export labels
 T2l == c.kind = "t2l"
 LawLabelTotal  == T2l => ReqLabels(K.tags, K.lo) # {}
-LawLabelDet    == (T2l /\ (K.lo.sel = <<>> \/ K.lo.vo = "t" \/ K.lo.seqfn)) => Cardinality(ReqLabels(K.tags, K.lo)) = 1
+LawLabelDet    == (T2l /\ (K.lo.sel = <<>> \/ K.lo.vo # "a" \/ K.lo.seqfn)) => Cardinality(ReqLabels(K.tags, K.lo)) = 1
 LawIndexWraps  == (T2l /\ K.lo.idx # <<>> /\ K.tags # <<>>) =>
                      \A d \in {-1, 1} : ReqLabels(K.tags, [K.lo EXCEPT !.idx = <<K.lo.idx[1] + d * Len(K.tags)>>]) = ReqLabels(K.tags, K.lo)
 LawEmptyLabel  == (T2l /\ K.tags = <<>> /\ ~K.lo.seqfn) => ReqLabels(K.tags, K.lo) = {OptOr(K.lo.empty, "__empty__")}
